@@ -227,6 +227,10 @@ class PeakProjectedMem(PlanSpec):
         if len(real) >= 2:
             yield "canary:just-the-max", c.Or(*[res == o.projected_mem for o in real])
 
+    def replay(self, cfg, model, ob):
+        return ("import sys\nsys.path.insert(0, '/verif')\nfrom pyvc.replay_plan import run_peak\n"
+                f"reproduced, detail = run_peak({dict(model)!r}, {cfg['k']}, {cfg['none_at']!r})\n")
+
 
 @register
 class CanFuseMultiple(PlanSpec):
@@ -332,6 +336,10 @@ class FuseMultiple(PlanSpec):
     def canaries(self, c, a, k, res):
         yield "canary:projected-is-op's", res.projected_mem == c.op.projected_mem
 
+    def replay(self, cfg, model, ob):
+        return ("import sys\nsys.path.insert(0, '/verif')\nfrom pyvc.replay_plan import run_fuse_multiple\n"
+                f"reproduced, detail = run_fuse_multiple({dict(model)!r}, {cfg['k']}, {cfg['none_at']!r})\n")
+
 
 @register
 class Fuse(PlanSpec):
@@ -358,6 +366,10 @@ class Fuse(PlanSpec):
 
     def canaries(self, c, a, k, res):
         yield "canary:projected-is-sum", res.projected_mem == c.op1.projected_mem + c.op2.projected_mem
+
+    def replay(self, cfg, model, ob):
+        return ("import sys\nsys.path.insert(0, '/verif')\nfrom pyvc.replay_plan import run_fuse_pair\n"
+                f"reproduced, detail = run_fuse_pair({dict(model)!r})\n")
 
 
 @register
